@@ -19,6 +19,54 @@ pub mod partial;
 #[cfg(feature = "serde")]
 mod serde;
 
+/// *`feature = "verif"`* - Observation points for external runtime monitors. Nothing in here
+/// changes what the library computes. Recording is off unless a monitor switches it on for
+/// its own thread.
+#[cfg(feature = "verif")]
+pub mod verif {
+    use std::cell::RefCell;
+
+    pub use super::eval_binary;
+    pub use super::number_tracker::NumberTracker;
+
+    /// One reduction step of [`eval_binary`]: the operator at `op_idx` has been applied to the
+    /// numbers at `left_idx` and `right_idx` of `n_numbers` numbers.
+    #[derive(Clone, Copy, Debug, PartialEq, Eq)]
+    pub struct ReductionStep {
+        pub op_idx: usize,
+        pub left_idx: usize,
+        pub right_idx: usize,
+        pub n_numbers: usize,
+    }
+
+    thread_local! {
+        static TRACE: RefCell<Option<Vec<ReductionStep>>> = const { RefCell::new(None) };
+    }
+
+    /// Starts recording the reduction steps of the current thread.
+    pub fn trace_start() {
+        TRACE.with(|t| *t.borrow_mut() = Some(Vec::new()));
+    }
+
+    /// Stops recording and returns the recorded reduction steps of the current thread.
+    pub fn trace_take() -> Vec<ReductionStep> {
+        TRACE.with(|t| t.borrow_mut().take().unwrap_or_default())
+    }
+
+    pub(crate) fn record_step(op_idx: usize, left_idx: usize, right_idx: usize, n_numbers: usize) {
+        TRACE.with(|t| {
+            if let Some(trace) = t.borrow_mut().as_mut() {
+                trace.push(ReductionStep {
+                    op_idx,
+                    left_idx,
+                    right_idx,
+                    n_numbers,
+                });
+            }
+        });
+    }
+}
+
 /// Expressions implementing this trait can be parsed from stings,
 /// evaluated for specific variable values, and unparsed, i.e.,
 /// transformed into a string representation.  
@@ -131,6 +179,9 @@ where
 
         let num_1_idx = idx - shift_left;
         let num_2_idx = idx + shift_right;
+
+        #[cfg(feature = "verif")]
+        verif::record_step(idx, num_1_idx, num_2_idx, numbers.len());
 
         numbers[num_1_idx] = binary_ops[idx].apply(
             mem::take(&mut numbers[num_1_idx]),
